@@ -167,10 +167,22 @@ theorem minus_fold (k : Nat) (h1 : 1 ≤ k) (h2 : k ≤ i128Max) (ty : Option Ty
   simp [primary, h2, negate, denotes]
   omega
 
-/-- the one decimal literal the folding cannot represent: `-2^127` stays a negated bit literal, and the linter then
-    looks at `2^127` — in range as a value, yet linted (finding F2, recorded in known-findings.json) -/
-theorem minus_fold_i128_min_counterexample :
+def isSignedTy : Ty → Bool
+  | .i8 | .i16 | .i32 | .i64 | .i128 => true
+  | _ => false
+
+/-- **a negated hexadecimal / binary literal is linted exactly when the negated value is out of range** of a signed type
+    (the least value, whose magnitude alone does not fit, included: F2 / F2b were the linter looking at the magnitude only) -/
+theorem lint_iff_out_of_range_negated_bit (t : Ty) (ht : isSignedTy t = true) (v : Nat) (ty : Option Ty) :
+    lintNode t (.negOf (.bit v ty)) = !inRange t (-(v : Int)) := by
+  cases t <;> simp [isSignedTy] at ht <;>
+    simp only [lintNode, inRange, minOf, maxOf, isSigned, width] <;>
+    simp <;> rw [Bool.eq_iff_iff] <;> simp <;> omega
+
+/-- the one decimal literal the folding cannot represent: `-2^127` stays a negated bit literal; its value is in range and
+    it is not linted (F2, repaired: the linter used to look at `2^127` on its own) -/
+theorem minus_fold_i128_min :
     let node := negate ((primary (.dec (2 ^ 127))).getD (.bit 0 none))
-    inRange .i128 (denotes node) = true ∧ lintNode .i128 node = true := by decide
+    inRange .i128 (denotes node) = true ∧ lintNode .i128 node = false := by decide
 
 end Lit
